@@ -15,7 +15,7 @@ RULE = {"C09": "generated owner classes with 1-6 tunables (defaults of every sup
                "NetworkTables; distinct = hash of (definition, history)."}
 REQUIRED = {"C09": {"type:boolean": 50, "type:int": 50, "type:double": 50, "type:string": 50, "type:raw": 20, "type:struct:Rotation2d": 20,
                     "type:boolean[]": 20, "type:int[]": 20, "type:double[]": 20, "type:string[]": 20, "type:struct:Rotation2d[]": 10,
-                    "empty-hinted": 30, "writeDefault-true-overwrites": 50, "writeDefault-false-preserves": 50, "subtable": 100,
+                    "empty-hinted": 30, "writeDefault-true-overwrites": 50, "writeDefault-false-preserves": 50, "writeDefault-false-preserves-falsy": 10, "subtable": 100,
                     "owner:components": 100, "owner:autonomous": 50, "owner:root": 50, "via-magicrobot": 30,
                     "py-read-after-nt-write": 500, "nt-read-after-py-write": 500, "two-instances-independent": 100}}
 ASSUMPTIONS = {"C09": ["values written are always of the topic's own type (cross-type writes are rejected by NetworkTables itself)",
@@ -65,6 +65,19 @@ def value_of(kind, i):
     raise ValueError(kind)
 
 
+# (no empty struct array: ntcore's struct-array subscriber itself reads a zero-length value as "no value" and returns its
+#  default - below this library, probed with an independent subscriber)
+FALSY = {"bool": False, "int": 0, "float": 0.0, "str": "", "bytes": b"", "bool[]": [], "int[]": [], "float[]": [], "str[]": []}
+
+
+def pre_value(t, ii):
+    """Pre-existing topic value of tunable t for instance ii (sometimes a falsy one: 0, '', [] ... must be preserved too)."""
+    base = t["kind"].split(":")[1] + "[]" if t["kind"].startswith("empty:") else t["kind"]
+    if t.get("pre_falsy") and base in FALSY and norm(FALSY[base]) != norm(value_of(t["kind"], 0)):
+        return FALSY[base]
+    return value_of(t["kind"], 1000 + ii)
+
+
 def norm(v):
     if isinstance(v, (list, tuple)):
         return [norm(x) for x in v]
@@ -77,7 +90,7 @@ def gen_case(rng, uid):
     for j in range(nt):
         kind = rng.choice(KINDS)
         t = {"attr": f"t{j}{uid}", "kind": kind, "writeDefault": rng.random() < 0.6, "subtable": rng.choice([None, None, "sub", "a/b"]),
-             "as_tuple": rng.random() < 0.3, "spelling": rng.randrange(3), "preexisting": rng.random() < 0.4}
+             "as_tuple": rng.random() < 0.3, "spelling": rng.randrange(3), "preexisting": rng.random() < 0.4, "pre_falsy": rng.random() < 0.4}
         tun.append(t)
     via_robot = rng.random() < 0.2
     if via_robot:
@@ -211,7 +224,7 @@ def run_case(acc, case):
                 ch = Channel(topic_path(inst, t), t["kind"])
                 chans[(ii, ti)] = ch
                 if t["preexisting"]:
-                    v = value_of(t["kind"], 1000 + ii)
+                    v = pre_value(t, ii)
                     ch.publisher().set(v)
         # ---- bind
         try:
@@ -240,8 +253,10 @@ def run_case(acc, case):
             for ti, t in enumerate(tun):
                 ch = chans[(ii, ti)]
                 if t["preexisting"] and not t["writeDefault"]:
-                    want = value_of(t["kind"], 1000 + ii)
+                    want = pre_value(t, ii)
                     acc.ev("writeDefault-false-preserves")
+                    if not want and not hasattr(want, "radians"):
+                        acc.ev("writeDefault-false-preserves-falsy")
                 else:
                     want = value_of(t["kind"], 0)
                     if t["preexisting"]:
